@@ -219,7 +219,7 @@ pub fn history(seed: u64, idx: u64) -> Case {
                     let code = PingFault::ErrorCode(rng.below(crate::server::ERROR_REPLIES.len() as u64) as u8);
                     let shape = PingFault::Shape(rng.below(3) as u8);
                     let named = PingFault::Named(rng.below(2 * crate::server::NAMED_REPLIES.len() as u64) as u8);
-                    let f = *rng.pick(&[PingFault::Stale, PingFault::Wrong, look, look, shape, shape, named, named, named, PingFault::Error, code, code, PingFault::Disconnect, PingFault::Silence]);
+                    let f = *rng.pick(&[PingFault::Stale, PingFault::Wrong, look, look, shape, shape, named, named, named, PingFault::Newest, PingFault::Newest, PingFault::Error, code, code, PingFault::Disconnect, PingFault::Silence]);
                     if rng.chance(1, 5) {
                         st.lock().unwrap().kill = true;
                         for _ in 0..2000 {
